@@ -10,9 +10,20 @@ PROP = "C09"
 MODEL_TARGETS = ["Corr/ReadShow.vo"]
 THEOREMS = ["C09_blank_header", "C09_comment_header", "C09_skipped_header", "C09_blank_data", "C09_comment_data", "C09_sniff_skipped", "C09_sniff_blank", "C09_sniff_comment", "C09_skipped_data", "C09_strip_padding", "C09_strip_idempotent", "C09_strip_blank", "C09_padding_map", "C09_padding_header", "C09_padding_sections", "C09_padding_other", "C09_padding_data", "C09_padding_read", "C09_crlf_strip", "C09_crlf_lines", "C09_crlf_read", "C09_final_newline", "C09_final_newline_read", "C09_tokens_of_lines", "C09_rewrap_tokens", "C09_rewrap_data", "C09_rewrap_data_clean", "C09_rewrap_read", "C09_rewrap_clean_lines", "C09_rewrap_width", "C09_redelimit_space", "C09_redelimit_space_fields", "C09_redelimit_comma", "C09_blocks", "C09_skip_read", "C09_compose", "C09_compose_list", "C09_step_read", "C09_compose_read"]
 ASSUMPTIONS = [
-    "transformations are applied to files inside the modelled fragment (LAS 1.2/2.0, default read options)",
+    "transformations are applied to files inside the modelled fragment (LAS 1.2/2.0; default read options and engine='normal')",
     "~Other keeps blank lines (they are content), so blank/comment insertion is not claimed there",
+    "text cells of DLM COMMA/TAB data keep the blanks that pad the field: known finding delimited-text-padding (the class is generated; "
+    "its violations are classed only when nothing else differs)",
+    "re-wrapping across depth steps (a physical line carrying the tail of step i and the head of step i+1) is generated with at most n "
+    "values per line for n curves: a line with MORE values than curves is, by C07, a line of a file with surplus columns (lasio decides "
+    "this on a window of the first lines), so such texts are other files, not other presentations",
+    "header re-spacing resizes runs of blanks that exist (between mnemonic and period, after the unit, around the last colon); a run is never "
+    "created next to the period or removed after the unit, because that would move text between fields; lines where lasio keeps a blank "
+    "inside a field by design are left alone ('..' mnemonics such as 'I. RES..OHM-M', the '1000 psi' unit form)",
 ]
+
+
+MIN_CORPUS = 50         # example files expected to pass corpus_files.corpus() (71 on the unchanged tree)
 
 
 def split_sections(lines):
@@ -40,11 +51,21 @@ def t_insert_blank_or_comment(rng, lines, kinds):
     return lines[:pos] + [ins] + lines[pos:], "insert %r at line %d of ~%s" % (ins, pos, s[0])
 
 
-def t_pad_lines(rng, lines):
+def t_pad_lines(rng, lines, dlm=None):
+    """pad both ends of lines; in DLM COMMA/TAB data only blanks are padding (a tab is the TAB delimiter)"""
+    data = set()
+    if dlm in ("COMMA", "TAB"):
+        for sec in split_sections(lines):
+            if sec[0] == "A":
+                data |= set(sec[2])
     out = []
-    for ln in lines:
+    for i, ln in enumerate(lines):
         if rng.random() < 0.3:
-            ln = rng.choice(["", " ", "  ", "\t"]) + ln.strip() + rng.choice(["", " ", "   ", "\t"])
+            if i in data:
+                if ln.strip(" ") and not ln.strip().startswith("#"):
+                    ln = rng.choice(["", " ", "  "]) + ln.strip(" ") + rng.choice(["", " ", "   "])
+            else:
+                ln = rng.choice(["", " ", "  ", "\t"]) + ln.strip() + rng.choice(["", " ", "   ", "\t"])
         out.append(ln)
     return out, "pad line ends"
 
@@ -77,6 +98,23 @@ def t_header_spacing(rng, lines):
                 if s[0] == "P" and (":" in left or ":" in right):
                     continue
                 out[i] = left.rstrip() + rng.choice([" ", "   ", " \t"]) + ":" + rng.choice([" ", "  ", ""]) + right.strip()
+            st = out[i].strip()
+            p = st.find(".")
+            q = st.find(":")
+            if p <= 0 or q < p or ".." in st[:q] or re.match(r"[0-9]+[ \t]", st[p + 1:]):
+                continue            # '..' mnemonics and the '1000 psi' unit keep a blank INSIDE a field (ASSUMPTIONS)
+            if rng.random() < 0.4:
+                # the run of blanks that follows the unit (or the period, when there is no unit), before the first colon
+                m = re.compile(r"[ \t]+").search(st, p + 1)
+                if m and m.start() < q and m.end() < q + 1 and st[m.end():m.end() + 1] != "":
+                    st = st[:m.start()] + rng.choice([" ", "  ", "      ", "\t", " \t "]) + st[m.end():]
+                    p = st.find(".")
+            if rng.random() < 0.3:
+                # an existing run of blanks between a plain mnemonic and the period
+                name = st[:p]
+                if name.rstrip() != name and name.strip() and not re.search(r"[ \t:]", name.strip()):
+                    st = name.rstrip() + rng.choice([" ", "  ", "\t", "    "]) + st[p:]
+            out[i] = st
     return out, "re-space header"
 
 
@@ -107,6 +145,34 @@ def t_rewrap(rng, lines, las_ncurves, wrapped):
     return lines[:first] + new + lines[last + 1:], "re-wrap at %d values per line" % k
 
 
+def t_rewrap_cross(rng, lines, las_ncurves, wrapped):
+    """re-wrap the whole token stream of a WRAP=YES data section at arbitrary token boundaries: a physical line may carry the tail of one
+    depth step and the head of the next; never more than n values on a line (ASSUMPTIONS)"""
+    if not wrapped:
+        return lines, None
+    secs = [s for s in split_sections(lines) if s[0] == "A"]
+    if len(secs) != 1 or not secs[0][2]:
+        return lines, None
+    s = secs[0]
+    toks = []
+    for i in s[2]:
+        st = lines[i].strip()
+        if st.startswith("#"):
+            return lines, None
+        toks += st.split()
+    n = las_ncurves
+    if n == 0 or len(toks) % n:
+        return lines, None
+    fixed = rng.choice([None, None] + [k for k in range(1, n + 1)])
+    new, a = [], 0
+    while a < len(toks):
+        c = fixed or rng.randint(1, n)
+        new.append(rng.choice([" ", "", "  "]) + rng.choice([" ", "  ", "\t"]).join(toks[a:a + c]))
+        a += c
+    first, last = s[2][0], s[2][-1]
+    return lines[:first] + new + lines[last + 1:], "re-wrap-cross (%s values per line, steps share lines)" % (fixed or "1..%d" % n)
+
+
 def t_redelimit(rng, lines, dlm):
     """re-delimit the data with the declared delimiter, with or without padding blanks"""
     secs = [s for s in split_sections(lines) if s[0] == "A"]
@@ -121,8 +187,9 @@ def t_redelimit(rng, lines, dlm):
                 sep = rng.choice([",", ", ", " , "])
                 out[i] = sep.join(parts)
             elif dlm == "TAB":
-                parts = [p.strip() for p in st.split("\t")]
-                out[i] = "\t".join(parts)
+                parts = [p.strip(" ") for p in out[i].strip(" ").split("\t")]
+                sep = rng.choice(["\t", "\t", " \t", "\t ", " \t "])
+                out[i] = sep.join(parts)
     return out, "re-delimit (%s)" % dlm
 
 
@@ -134,7 +201,7 @@ def transform(rng, text, meta):
         lines = lines[:-1]
     notes = []
     for _ in range(rng.randint(1, 6)):
-        k = rng.choice(["bh", "bd", "pad", "dsp", "hsp", "crlf", "fnl", "rewrap", "redelim"])
+        k = rng.choice(["bh", "bd", "pad", "dsp", "hsp", "crlf", "fnl", "rewrap", "rewrapx", "redelim"])
         note = None
         if k == "bh":
             lines, note = t_insert_blank_or_comment(rng, lines, "VWCP" + "".join(meta.get("custom_letters", "")))
@@ -142,8 +209,7 @@ def transform(rng, text, meta):
             if meta.get("dlm") in (None, "SPACE"):
                 lines, note = t_insert_blank_or_comment(rng, lines, "A")
         elif k == "pad":
-            if meta.get("dlm") in (None, "SPACE"):
-                lines, note = t_pad_lines(rng, lines)
+            lines, note = t_pad_lines(rng, lines, meta.get("dlm"))
         elif k == "dsp":
             if meta.get("dlm") in (None, "SPACE"):
                 lines, note = t_data_spacing(rng, lines)
@@ -157,6 +223,8 @@ def transform(rng, text, meta):
             note = "final newline"
         elif k == "rewrap":
             lines, note = t_rewrap(rng, lines, meta.get("ncurves", 0), meta.get("wrapped", False))
+        elif k == "rewrapx":
+            lines, note = t_rewrap_cross(rng, lines, meta.get("ncurves", 0), meta.get("wrapped", False))
         elif k == "redelim":
             if meta.get("dlm") in ("COMMA", "TAB"):
                 lines, note = t_redelimit(rng, lines, meta["dlm"])
@@ -185,16 +253,26 @@ def base_files(ctx):
             s.order.append(("X", 0))
         if rng.random() < 0.3:
             s.a_pos = 1
+        if rng.random() < 0.2 and len(s.rows[0]) > 1 and (DELIMITED_TEXT_PADDING or s.dlm not in ("COMMA", "TAB")):
+            # a text column (not the index)
+            j = rng.randrange(1, len(s.rows[0]))
+            for row in s.rows:
+                row[j] = rng.choice(["sand", "shale", "N/A", "x1", "A-2"])
         t = lasgen.render(s)[0]
         if s.wrap == "YES":
             # wrap every depth step over lines of 2 values
             head, body = t.split("~ASCII\n")
-            rows = [ln.split() for ln in body.strip("\n").split("\n")] if body.strip() else []
+            blines = body.split("\n")
+            nd = next((i for i, ln in enumerate(blines) if ln.startswith("~")), len(blines))      # ~A may be an inner section
+            data, tail = blines[:nd], blines[nd:]
+            rows = [ln.split() for ln in data if ln.strip()]
             new = []
             for r in rows:
                 for b in range(0, len(r), 2):
                     new.append(" " + " ".join(r[b:b + 2]))
-            t = head + "~ASCII\n" + "\n".join(new) + "\n"
+            t = head + "~ASCII\n" + "\n".join(new + tail)
+            if not t.endswith("\n"):
+                t += "\n"
         out.append(("gen:%d" % i, t))
     return out
 
@@ -207,15 +285,37 @@ def file_meta(text):
         dlm = las.version["DLM"].value
     wrapped = "WRAP" in las.version and las.version["WRAP"].value == "YES"
     letters = "".join(k[0].upper() for k in las.sections if k not in ("Version", "Well", "Curves", "Parameter", "Other") and k)
-    return {"dlm": dlm, "wrapped": wrapped, "ncurves": len(las.curves), "custom_letters": letters}, rm.show_las(las)
+    return {"dlm": dlm, "wrapped": wrapped, "ncurves": len(las.curves), "custom_letters": letters,
+            "text_column": any(c.data.dtype.kind in "US" for c in las.curves)}, rm.show_las(las)
 
 
-def oracle(base_text, new_text):
-    a, _ = rm.impl_read(base_text)
-    b, _ = rm.impl_read(new_text)
-    if a != b:
-        j = next((p for p in range(min(len(a), len(b))) if a[p] != b[p]), 0)
-        return "read differs near %r vs %r" % (a[max(0, j - 70):j + 70], b[max(0, j - 70):j + 70])
+ENGINES = ("numpy", "normal")
+
+# text cells of DLM COMMA / DLM TAB data keep the padding blanks around the delimiter (reported to main): the class "text column in a
+# COMMA/TAB base + padding / re-delimiting" is generated only when this is True; its oracle messages start with the tag
+DELIMITED_TEXT_PADDING = True
+DELIMITED_TEXT_TAG = "DELIMITED-TEXT-PADDING:"
+
+
+def strip_text_cells(canon):
+    """the canonical dump with every text cell of the data record stripped"""
+    parts = canon.split(rm.RS)
+    if len(parts) > 7:
+        # the data record is the last but one (custom sections add records before it)
+        parts[-2] = rm.IS.join(rm.FS.join(("s:" + c[2:].strip()) if c.startswith("s:") else c for c in col.split(rm.FS))
+                               for col in parts[-2].split(rm.IS))
+    return rm.RS.join(parts)
+
+
+def oracle(base_text, new_text, engines=ENGINES, strip_text=False):
+    for e in engines:
+        a, _ = rm.impl_read(base_text, engine=e)
+        b, _ = rm.impl_read(new_text, engine=e)
+        if strip_text:
+            a, b = strip_text_cells(a), strip_text_cells(b)
+        if a != b:
+            j = next((p for p in range(min(len(a), len(b))) if a[p] != b[p]), 0)
+            return "read (engine=%r) differs near %r vs %r" % (e, a[max(0, j - 70):j + 70], b[max(0, j - 70):j + 70])
     return None
 
 
@@ -249,25 +349,48 @@ def run(ctx):
     per = 12 if ctx.thorough else 3
     cases, meta_l, kinds = [], [], set()
     hist = {}
+    n_corpus = sum(1 for n, _ in bases if n.startswith("corpus:"))
+    unreadable = []
     for name, text in bases:
         try:
             meta, base_canon = file_meta(text)
-        except Exception:
+        except Exception as e:
+            unreadable.append("%s: %s" % (name, type(e).__name__))
             continue
         variants = [transform(rng, text, meta) for _ in range(per)] + systematic(rng, text, meta, 8 if ctx.thorough else 3)
+        if meta.get("wrapped"):
+            # every wrapped base is re-wrapped per depth step and across depth steps at least once
+            blines = text.split("\n")
+            fnl = blines and blines[-1] == ""
+            blines = blines[:-1] if fnl else blines
+            for f in (t_rewrap, t_rewrap_cross, t_rewrap_cross):
+                nl, note = f(rng, blines, meta.get("ncurves", 0), True)
+                variants.append(("\n".join(nl) + ("\n" if fnl else ""), [note] if note else []))
         for new, notes in variants:
             if not notes:
                 continue
             bad = oracle(text, new)
+            if bad and meta.get("text_column") and meta.get("dlm") in ("COMMA", "TAB"):
+                bad = DELIMITED_TEXT_TAG + " " + bad
             if bad:
                 res.oracle_violations.append({"payload": {"base": text, "new": new, "notes": notes}, "what": "%s %r: %s" % (name, notes, bad)})
             exp, _ = rm.impl_read(new)
             cases.append(rm.coq_case(new, exp))
             meta_l.append((name, new, notes))
+            if rng.random() < 0.25:
+                # the reference engine on the same presentation
+                exp, _ = rm.impl_read(new, engine="normal")
+                cases.append(rm.coq_case(new, exp, engine="normal"))
+                meta_l.append((name, new, notes + ["engine=normal"]))
+                hist["engine=normal"] = hist.get("engine=normal", 0) + 1
             kinds.add((name, tuple(sorted(set(n.split(" ")[0] for n in notes)))))
             for nt in notes:
                 k = nt.split(" ")[0]
                 hist[k] = hist.get(k, 0) + 1
+            if meta.get("dlm") in ("COMMA", "TAB") and any(nt.startswith(("pad", "re-delimit")) for nt in notes):
+                hist["delimited+pad/re-delimit"] = hist.get("delimited+pad/re-delimit", 0) + 1
+            if meta.get("text_column"):
+                hist["text_column_base"] = hist.get("text_column_base", 0) + 1
     if ctx.build.model_ok:
         mism, err = lib.run_coq_cases("c09", [], rm.RUN_READ, cases, shard=40)
         res.corr_error = err
@@ -275,12 +398,20 @@ def run(ctx):
             res.mismatches.append({"base": meta_l[i][0], "text": meta_l[i][1], "notes": meta_l[i][2]})
     else:
         res.corr_error = "model not built"
+    # a class of readable bases that turns unreadable must not shrink the sample silently
+    if unreadable or n_corpus < MIN_CORPUS:
+        res.corr_error = ((res.corr_error + "; ") if res.corr_error else "") + \
+            ("%d base file(s) built/filtered as readable could not be read (%s); %d example files passed the corpus filter (expected >= %d)"
+             % (len(unreadable), "; ".join(unreadable[:3]), n_corpus, MIN_CORPUS))
     res.cases = len(cases)
     res.distinct_nontrivial = len(kinds)
     res.rule = ("readable bases (example corpus + generated incl. WRAP=YES, DLM COMMA/TAB, custom sections, inner ~A) x compositions of "
                 "1-6 transformations: blank/# line inserted in a header or data section, padding of line ends, re-spacing of data "
-                "and of header fields, LF<->CRLF, final newline dropped/added, re-wrap of WRAP=YES data at any tokens-per-line, "
-                "re-delimiting with the declared delimiter; non-trivial = distinct (base, set of transformation kinds)")
+                "and of header fields (mnemonic-period, unit-value, around the last colon), LF<->CRLF, final newline dropped/added, "
+                "re-wrap of WRAP=YES data per depth step at any tokens-per-line and across depth steps at any token boundary (at most n "
+                "values per line), re-delimiting with the declared delimiter with or without padding blanks; text columns; each variant "
+                "read with both engines (oracle) and a quarter of them with engine='normal' through the model too; non-trivial = distinct "
+                "(base, set of transformation kinds)")
     res.samples = [repr(meta_l[0][2]), repr(meta_l[-1][2])] if meta_l else []
     res.histogram = hist
     return res
@@ -289,6 +420,24 @@ def run(ctx):
 def replay(payload):
     bad = oracle(payload["base"], payload["new"])
     return bad is not None, bad or "ok"
+
+
+def finding_of(payload):
+    """delimited-text-padding: the base declares DLM COMMA or TAB and has a text column, the transformation list holds a pad / re-delimit
+    step, the oracle fails, and it passes once text cells are compared after strip() (any other difference is another violation)"""
+    try:
+        meta, _ = file_meta(payload["base"])
+        if meta.get("dlm") not in ("COMMA", "TAB") or not meta.get("text_column"):
+            return None
+        if not any(str(n).startswith(("pad", "re-delimit")) for n in payload.get("notes", [])):
+            return None
+        if oracle(payload["base"], payload["new"]) is None:
+            return None
+        if oracle(payload["base"], payload["new"], strip_text=True) is None:
+            return "delimited-text-padding"
+    except Exception:
+        return None
+    return None
 
 
 def search(ctx, res):
@@ -311,4 +460,3 @@ def search(ctx, res):
                 bad = oracle(text, new)
                 if bad:
                     yield {"payload": {"base": text, "new": new, "notes": notes}, "what": "%s %r: %s" % (name, notes, bad)}
-                    return
